@@ -142,7 +142,7 @@ def run_jobs(ctx, m, jobs):
     for j in jobs:
         name, text, tmo, key = j[:4]
         expect = j[4] if len(j) > 4 else 'unsat'
-        futs.append((name, key, expect, m.pool.submit(text, 'z3-new', tmo, ctx.seed), text))
+        futs.append((name, key, expect, m.pool.submit(text, 'z3-new', tmo, ctx.seed, portfolio=1), text))
     agg = {}
     for name, key, expect, fut, text in futs:
         verdict, out, dt = fut.result()
@@ -219,8 +219,11 @@ def reg_ident(ctx, m, paths):
         nm = 'C08:register:plus-is-add-assign'
         if len(rs) == 1 and rs[0].kind == 'return' and 'addassign' in results and reg(rs[0].value) == results['addassign']:
             ctx.record(nm, 'M', 'held', bound='syntactic', sample={'obligation': 'KahanSum + x == { r = self; r += x; r }', 'verdict': 'same DAG'})
-        elif rs and rs[0].kind == 'stuck':
-            m.stuck(nm, rs[0].value[1])
+        elif not rs or rs[0].kind == 'stuck':
+            # the by-value operator could not be reduced to `+=` symbolically: let the native battery decide whether it still sums correctly
+            why = rs[0].value[1] if rs else 'no path'
+            v = ctx.classify(nm, '`KahanSum + x` is not (recognisably) `+=`: %s' % why, lambda: native_battery(ctx, nm))
+            ctx.record(nm, 'M', {'violation': 'violated', 'known': 'known-finding', 'inconclusive': 'inconclusive'}[v], key=nm, detail=why[:200])
         else:
             m.violated_structurally(nm, nm, '`KahanSum + x` does not accumulate x into the left register like `+=`', replay=lambda model, p: native_battery(ctx, nm))
 
